@@ -281,9 +281,10 @@ def contract_persist_msg(I, args, kwargs):
     if fr is None:
         raise Outside("persist_msg of bytes without a frame view")
     jr.f["ops"].append(("persist_begin", direction.name, fr))
-    if not fr.has_seq or fr.seq is None:
-        I.raise_repo("asyncfix.errors.FIXMessageError")
-    if isinstance(fr.has_seq, SBool) and not I.ctx.branch(fr.has_seq):
+    if isinstance(fr.has_seq, SBool):
+        if not I.ctx.branch(fr.has_seq):
+            I.raise_repo("asyncfix.errors.FIXMessageError")
+    elif not fr.has_seq or fr.seq is None:
         I.raise_repo("asyncfix.errors.FIXMessageError")
     seq = fr.seq
     rows = "out_rows" if direction.name == "OUTBOUND" else "in_rows"
@@ -437,8 +438,17 @@ def observe(I, conn, out, pre):
     return post
 
 
-def conn_native_case(op, inputs, msg_name="m", args=None, with_msg=True):
+def conn_native_case(op, inputs, msg_name="m", args=None, with_msg=True, comp_ids_ok=False, begin_ok=True):
     ob = inputs.get("__observed__", {})
+    inputs = dict(inputs)
+    if with_msg and begin_ok and (msg_name + "_has_8") not in inputs:
+        inputs[msg_name + "_has_8"] = True
+        inputs[msg_name + "_v8"] = "FIX.4.4"
+    if with_msg and comp_ids_ok:
+        inputs[msg_name + "_has_49"] = True
+        inputs[msg_name + "_v49"] = inputs.get("target", "")
+        inputs[msg_name + "_has_56"] = True
+        inputs[msg_name + "_v56"] = inputs.get("sender", "")
     pre = {k: inputs[k] for k in ("st", "role", "sender", "target", "nout", "nin", "J_in", "J_out", "was_active", "H", "maxrs")
            if k in inputs}
     pre["L"] = float(inputs.get("L", 0.0))
@@ -478,7 +488,9 @@ def conn_agrees(engine_obs, native):
     for k in ("st", "role", "nin", "nout", "maxrs", "R", "was_active", "writer", "J_in", "J_out", "closed"):
         if k in engine_obs and engine_obs[k] != p[k]:
             bad.append((k, engine_obs[k], p[k]))
-    if len(engine_obs.get("W", [])) != len(p["W"]):
+    if "W" not in engine_obs:
+        pass
+    elif len(engine_obs.get("W", [])) != len(p["W"]):
         bad.append(("len(W)", len(engine_obs.get("W", [])), len(p["W"])))
     else:
         for i, (e, n) in enumerate(zip(engine_obs["W"], p["W"])):
@@ -489,7 +501,7 @@ def conn_agrees(engine_obs, native):
     if [str(x) for x in engine_obs.get("A", [])] != [str(x) for x in p["A"]]:
         bad.append(("A", engine_obs.get("A"), p["A"]))
     ev_n = [e.split(":")[0] for e in p["EV"]]
-    if list(engine_obs.get("EV", [])) != ev_n:
+    if "EV" in engine_obs and list(engine_obs.get("EV", [])) != ev_n:
         bad.append(("EV", engine_obs.get("EV"), ev_n))
     if "L_is_zero" in engine_obs and bool(engine_obs["L_is_zero"]) != (p["L"] == 0.0):
         bad.append(("L_is_zero", engine_obs["L_is_zero"], p["L"]))
